@@ -3,14 +3,12 @@
 //@ clause: positive twin of require_static_on_variant (attribute moved onto the field)
 use gc_arena::Collect;
 
-pub struct NotCollect;
-
 #[derive(Collect)]
 #[collect(no_drop)]
 pub enum MyEnum {
     First {
         #[collect(require_static)]
-        field: NotCollect,
+        field: u8,
     },
     Second(u8),
 }
